@@ -611,3 +611,185 @@ def sym_exec(stmts, env=None):
             continue
         raise NotEvaluable(f"statement not modelled: {ast.unparse(st)[:60]}")
     return env
+
+
+def returned_exprs(fi, max_paths=64):
+    """Every expression a loop-free function can return, as an expression over its parameters / attributes: for each
+    path to a `return`, the assignments to plain names on the path are substituted (straight-line symbolic
+    execution) and conditional expressions are split into their alternatives.  Returns a list of (expr, conditions)
+    with conditions the list of (test expr, polarity) met on the path; raises NotEvaluable when the function has
+    loops or more than ``max_paths`` paths."""
+    import copy
+
+    from rsa.cfg import cfg_of
+
+    cfg = cfg_of(fi)
+    if any(n.kind == "loop" or n.label == "while-head" for n in cfg.nodes):
+        raise NotEvaluable("function has a loop")
+    rets = [n.id for n in cfg.nodes if n.kind == "return"]
+    out = []
+    paths = cfg.paths(targets=rets, max_visits=1, limit=max_paths + 1)
+    if len(paths) > max_paths:
+        raise NotEvaluable("too many paths")
+    for path in paths:
+        env = {}
+        conds = []
+
+        class S(ast.NodeTransformer):
+            def visit_Name(self, n):
+                return copy.deepcopy(env[n.id]) if isinstance(n.ctx, ast.Load) and n.id in env else n
+
+        for nid, lab in path:
+            node = cfg.nodes[nid]
+            st = node.ast
+            if node.kind == "cond" and st is not None:
+                conds.append((S().visit(copy.deepcopy(st)), lab))
+            elif node.kind == "stmt" and isinstance(st, (ast.Assign, ast.AnnAssign)) and getattr(st, "value", None) is not None:
+                tg = st.targets[0] if isinstance(st, ast.Assign) else st.target
+                if isinstance(tg, ast.Name) and (not isinstance(st, ast.Assign) or len(st.targets) == 1):
+                    env[tg.id] = S().visit(copy.deepcopy(st.value))
+                elif isinstance(tg, ast.Tuple) and isinstance(st.value, ast.Tuple) and len(tg.elts) == len(st.value.elts) and all(isinstance(x, ast.Name) for x in tg.elts):
+                    vals = [S().visit(copy.deepcopy(v)) for v in st.value.elts]
+                    for x, v in zip(tg.elts, vals):
+                        env[x.id] = v
+            elif node.kind == "stmt" and isinstance(st, ast.AugAssign) and isinstance(st.target, ast.Name):
+                cur = env.get(st.target.id, ast.Name(id=st.target.id, ctx=ast.Load()))
+                env[st.target.id] = ast.BinOp(left=copy.deepcopy(cur), op=st.op, right=S().visit(copy.deepcopy(st.value)))
+            elif node.kind == "return" and st is not None and st.value is not None:
+                out.append((S().visit(copy.deepcopy(st.value)), list(conds)))
+    # split conditional expressions (all occurrences of one test take the same branch)
+    class Fold(ast.NodeTransformer):
+        def visit_BinOp(self, n):
+            self.generic_visit(n)
+            if isinstance(n.left, ast.Constant) and isinstance(n.right, ast.Constant) and isinstance(n.left.value, int) and isinstance(n.right.value, int) and not isinstance(n.left.value, bool) and isinstance(n.op, (ast.Add, ast.Sub, ast.Mult)):
+                v = {ast.Add: n.left.value + n.right.value, ast.Sub: n.left.value - n.right.value, ast.Mult: n.left.value * n.right.value}[type(n.op)]
+                return ast.copy_location(ast.Constant(value=v), n)
+            return n
+
+    final = []
+    for e, conds in out:
+        work = [(e, conds)]
+        while work:
+            x, cs = work.pop()
+            ife = next((n for n in ast.walk(x) if isinstance(n, ast.IfExp)), None)
+            if ife is None or len(final) + len(work) > 4 * max_paths:
+                final.append((Fold().visit(copy.deepcopy(x)), cs))
+                continue
+            ttxt = ast.unparse(ife.test)
+            for pol in (True, False):
+
+                class R2(ast.NodeTransformer):
+                    def visit_IfExp(self, n):
+                        n = self.generic_visit(n)
+                        if isinstance(n, ast.IfExp) and ast.unparse(n.test) == ttxt:
+                            return n.body if pol else n.orelse
+                        return n
+
+                work.append((R2().visit(copy.deepcopy(x)), cs + [(copy.deepcopy(ife.test), pol)]))
+    return final
+
+
+def path_states(fi, max_paths=64, track_attrs=True):
+    """Symbolic state at every exit of a loop-free function: list of dicts with `env` (name or attribute-chain text
+    -> expression over the entry values), `conds` ((test expr, polarity) met on the way, conditional expressions
+    split) and `ret` (returned expression or None).  Straight-line assignments and augmented assignments to plain
+    names and (with ``track_attrs``) to attribute chains such as ``self.time`` are substituted."""
+    import copy
+
+    from rsa.cfg import cfg_of
+
+    cfg = cfg_of(fi)
+    if any(n.kind == "loop" or n.label == "while-head" for n in cfg.nodes):
+        raise NotEvaluable("function has a loop")
+    targets = [n.id for n in cfg.nodes if n.kind == "return"] + [cfg.exit.id]
+    paths = cfg.paths(targets=targets, max_visits=1, limit=max_paths + 1)
+    if len(paths) > max_paths:
+        raise NotEvaluable("too many paths")
+    raw = []
+    for path in paths:
+        env = {}
+        conds = []
+
+        class S(ast.NodeTransformer):
+            def visit_Name(self, n):
+                return copy.deepcopy(env[n.id]) if isinstance(n.ctx, ast.Load) and n.id in env else n
+
+            def visit_Attribute(self, n):
+                if isinstance(n.ctx, ast.Load) and track_attrs:
+                    k = ast.unparse(n)
+                    if k in env:
+                        return copy.deepcopy(env[k])
+                return self.generic_visit(n)
+
+        def key(tg):
+            if isinstance(tg, ast.Name):
+                return tg.id
+            if track_attrs and isinstance(tg, ast.Attribute) and all(isinstance(x, (ast.Attribute, ast.Name, ast.Load, ast.Store)) for x in ast.walk(tg)):
+                return ast.unparse(tg)
+            return None
+
+        ret = None
+        for nid, lab in path:
+            node = cfg.nodes[nid]
+            st = node.ast
+            if node.kind == "cond" and st is not None:
+                conds.append((S().visit(copy.deepcopy(st)), lab))
+            elif node.kind == "stmt" and isinstance(st, (ast.Assign, ast.AnnAssign)) and getattr(st, "value", None) is not None:
+                tgs = st.targets if isinstance(st, ast.Assign) else [st.target]
+                if len(tgs) == 1 and key(tgs[0]) is not None:
+                    env[key(tgs[0])] = S().visit(copy.deepcopy(st.value))
+            elif node.kind == "stmt" and isinstance(st, ast.AugAssign) and key(st.target) is not None:
+                k = key(st.target)
+                cur = env.get(k, copy.deepcopy(st.target))
+                if isinstance(cur, (ast.Name, ast.Attribute)):
+                    cur = copy.deepcopy(cur)
+                    for x in ast.walk(cur):
+                        if hasattr(x, "ctx"):
+                            x.ctx = ast.Load()
+                env[k] = ast.BinOp(left=cur, op=st.op, right=S().visit(copy.deepcopy(st.value)))
+            elif node.kind == "return" and st is not None:
+                ret = S().visit(copy.deepcopy(st.value)) if st.value is not None else None
+        raw.append(dict(env=env, conds=conds, ret=ret))
+    # split conditional expressions consistently across env / ret of one state
+    out = []
+    for stt in raw:
+        work = [stt]
+        while work:
+            cur = work.pop()
+            exprs = list(cur["env"].values()) + ([cur["ret"]] if cur["ret"] is not None else [])
+            ife = next((n for e in exprs for n in ast.walk(e) if isinstance(n, ast.IfExp)), None)
+            if ife is None or len(out) + len(work) > 4 * max_paths:
+                out.append(cur)
+                continue
+            ttxt = ast.unparse(ife.test)
+            for pol in (True, False):
+
+                class R2(ast.NodeTransformer):
+                    def visit_IfExp(self, n):
+                        n = self.generic_visit(n)
+                        if isinstance(n, ast.IfExp) and ast.unparse(n.test) == ttxt:
+                            return n.body if pol else n.orelse
+                        return n
+
+                work.append(dict(env={k: R2().visit(copy.deepcopy(v)) for k, v in cur["env"].items()}, conds=cur["conds"] + [(copy.deepcopy(ife.test), pol)], ret=R2().visit(copy.deepcopy(cur["ret"])) if cur["ret"] is not None else None))
+    return out
+
+
+def falsy_param_states(states, param):
+    """Those path states that are consistent with ``param`` being None / falsy (the default call)."""
+    keep = []
+    for s in states:
+        ok = True
+        for tst, pol in s["conds"]:
+            txt = ast.unparse(tst)
+            if txt == param and pol is True:
+                ok = False
+            if txt == f"not {param}" and pol is False:
+                ok = False
+            if txt in (f"{param} is None",) and pol is False:
+                ok = False
+            if txt in (f"{param} is not None",) and pol is True:
+                ok = False
+        if ok:
+            keep.append(s)
+    return keep
